@@ -4,7 +4,7 @@
    proc = P;user;admin;flavor;crash;q;op&op&...      crash = ~ or i,g,b     q = 0/1    admin = 0/1
         | X;loc;stack;flavor                  an outside deletion of a cache file
    op   = an operation in the format of the C06 driver, or  DC,loc,stack,flavor
-          or UA,flavor,stack,force,noaction,tag,name,version  /  UU,flavor,stack,force,noaction,tag,name,version|~
+          or UA,flavor,... / UP,flavor,stack,force,noaction,tag,name,version (UP: planted in the tag directory)  /  UU,flavor,stack,force,noaction,tag,name,version|~
    output: one TAB-separated segment per proc:
      outcomes(,)#records(;)#pickles(;)#loaded(;)#answers(;)#userrecords(;)
      record  = stack,kind,name,key,stamp            kind D / V / C
@@ -33,11 +33,12 @@ let dec_pop (s : Stdlib.String.t) : pop =
     (match Stdlib.String.split_on_char ',' s with
      | [_; l; st; f] -> PDel (dec_str l, dec_str st, dec_str f)
      | _ -> failwith "bad DC")
-  else if pre "UA," || pre "UU," then begin
+  else if pre "UA," || pre "UU," || pre "UP," then begin
     let a = Array.of_list (Stdlib.String.split_on_char ',' s) in
     let o = { o_flavor = dec_str a.(1); o_stack = opt a.(2); o_force = bool_of_field a.(3);
               o_noaction = bool_of_field a.(4) } in
     if a.(0) = "UA" then PUAssign (o, dec_str a.(5), dec_str a.(6), dec_str a.(7))
+    else if a.(0) = "UP" then PUPlant (o, dec_str a.(5), dec_str a.(6), dec_str a.(7))
     else PUUnassign (o, dec_str a.(5), dec_str a.(6), opt a.(7))
   end
   else POp (dec_op s)
